@@ -3,6 +3,7 @@
 //! from the command line drives every choice, so runs replay exactly.
 mod cursor;
 mod rng;
+mod runtime;
 mod script;
 mod util;
 mod wire;
@@ -21,6 +22,7 @@ fn main() {
         "c04" => wire::run_c04(&tier, seed, &mut out),
         "c07" => wire::run_c07(&tier, seed, &mut out),
         "c08" => cursor::run_c08(&tier, seed, &mut out),
+        "loop" | "loopadv" => runtime::run_stream(&args[1], &tier, seed, &mut out),
         // re-evaluate given cases (corpus / replay / shrinking): stdin lines `cmd \t arg [\t ...]`
         "eval" => {
             let stdin = std::io::stdin();
@@ -30,7 +32,8 @@ fn main() {
                 let cmd = it.next().unwrap_or("");
                 let arg = it.next().unwrap_or("");
                 let res = eval(cmd, arg);
-                writeln!(out, "{}\t{}\t{}", cmd, arg, res).unwrap();
+                let arg2 = if cmd == "loop" { runtime::with_descriptors(arg, &runtime::prog_descriptors()) } else { arg.to_string() };
+                writeln!(out, "{}\t{}\t{}", cmd, arg2, res).unwrap();
             }
         }
         s => { eprintln!("unknown stream {}", s); std::process::exit(2); }
@@ -42,6 +45,7 @@ fn eval(cmd: &str, arg: &str) -> String {
     let (name, param) = cmd.split_once(':').unwrap_or((cmd, ""));
     match name {
         "cursor" => cursor::eval(param, arg),
+        "loop" => runtime::eval(arg),
         "frombuf" => wire::frombuf_str(&util::unhex(arg)),
         "rt" => wire::parse_m(arg).map(|m| wire::rt_str(&m)).unwrap_or_else(|| "UNPARSABLE".into()),
         "concat" => wire::concat_eval(arg),
